@@ -1343,7 +1343,18 @@ def _dict_to_BlockSeries(
     if any(key_types):
         operator, symbols = _symbolic_keys_to_tuples(operator, symbols)
 
-    n_infinite = len(next(iter(operator.keys())))
+    keys = list(operator.keys())
+    if not all(isinstance(key, tuple) for key in keys):
+        raise ValueError("The Hamiltonian keys must be tuples of orders or monomials.")
+    n_infinite = len(keys[0])
+    if not all(
+        len(key) == n_infinite and all(n == int(n) and n >= 0 for n in key)
+        for key in keys
+    ):
+        raise ValueError(
+            "The Hamiltonian keys must be tuples of non-negative integers of equal "
+            "length, one order per perturbative parameter."
+        )
     zeroth_order = (0,) * n_infinite
     h_0 = operator[zeroth_order]
 
